@@ -2,6 +2,7 @@ package main
 
 import (
 	"bytes"
+	"testing/iotest"
 	"fmt"
 	"io"
 	"strconv"
@@ -89,7 +90,20 @@ func init() {
 	// hread names data size size ...: read through the tee with buffers of the given sizes (cyclically)
 	ops["hread"] = func(a []string) string {
 		names := namesOf(arg(a, 0))
-		src := bytes.NewReader([]byte(arg(a, 1)))
+		var src io.Reader = bytes.NewReader([]byte(arg(a, 1)))
+		// "name@dataerr": the source hands out its last bytes together with io.EOF (as gzip, bufio and network readers
+		// do); "@onebyte" / "@half": short reads
+		if k := strings.Index(arg(a, 0), "@"); k >= 0 {
+			switch arg(a, 0)[k+1:] {
+			case "dataerr":
+				src = iotest.DataErrReader(src)
+			case "onebyte":
+				src = iotest.OneByteReader(src)
+			case "half":
+				src = iotest.HalfReader(src)
+			}
+			names = namesOf(arg(a, 0)[:k])
+		}
 		var r io.Reader
 		var hs []*hashio.Hasher
 		var err error
